@@ -1224,6 +1224,69 @@ def ros_contract():
 
 
 RCPT_SEP = "[;,]"
+PMR = "_parse_multi_recipients"
+
+
+def pmr_shape_ok(repo=None):
+    """The contract of _parse_multi_recipients is verified on bodies written with statement loops.  A body written with comprehensions /
+    generator expressions (elements that may be None, nested generators: harmless/C16_13) is outside what the executor runs; such a
+    tree is NOT verified for this function -- it is summarised at its call sites exactly as before round 7 and the bounded native table
+    (`_parse_multi_recipients/bounded#native-table`, always run) is the only check of its body.  Never counted as proved."""
+    m = loader.module(MSG, repo) if repo is not None else loader.module(MSG)
+    fn = m.functions.get(PMR)
+    if fn is None:
+        return False
+    return not any(isinstance(n, (ast.ListComp, ast.GeneratorExp, ast.SetComp, ast.DictComp, ast.Lambda)) for n in ast.walk(fn))
+
+
+def post_report(c, rep):
+    """The obligations of _parse_multi_recipients exist only while its body has the loop form (pmr_shape_ok): they are checked and
+    counted like any other but not locked (`volatile`); the locked guard of the family is `bounded#native-table` + `coverage#...`."""
+    try:
+        if c.target.endswith("::" + PMR):
+            for o in rep.obligations:
+                o["volatile"] = True
+    except Exception:  # noqa
+        pass
+
+
+def pmr_coverage_obligations(repo, tier):
+    """Locked guard of the _parse_multi_recipients family: (1) BOUNDED stand-in, always run: the real function on the native table of
+    replay/C16.py::check_multi_recipients (strings and lists); (2) which treatment this tree gets (verified / summarised)."""
+    import json
+    import os
+    import subprocess
+    root = os.path.dirname(os.path.dirname(os.path.abspath(__file__)))
+    oid = f"C16/msg_email_extractor.py::{PMR}/bounded#native-table"
+    m = loader.module(MSG, repo)
+    if m.functions.get(PMR) is None:
+        return {"obligations": [ground_obligation(oid, False, "function not found", MSG, kind="bounded", definite=False)], "functions": []}
+    req = {"property": "C16", "obligation": oid, "repo": repo, "function_check_only": "check_multi_recipients"}
+    p = subprocess.run(["/venv/bin/python", os.path.join(root, "replay", "run.py")], input=json.dumps(req), capture_output=True, text=True,
+                       timeout=300, env=dict(os.environ, VERIF_REPO=repo))
+    lines = [l for l in p.stdout.splitlines() if l.startswith("{")]
+    res = json.loads(lines[-1]) if lines else None
+    if res is None:
+        o = ground_obligation(oid, False, f"native table did not run: {p.stderr[-200:]}", MSG, kind="bounded", backend="native", definite=False)
+    else:
+        bad = bool(res.get("reproduced"))
+        o = ground_obligation(oid, not bad, json.dumps({k: res.get(k) for k in ("inputs", "expected", "observed")}, default=repr)[:400] if bad else
+                              "12 inputs (8 strings, 4 lists)", MSG, kind="bounded", backend="native")
+        if bad:
+            o["witness"] = res.get("inputs")
+            o["_replayed"] = res
+    o["bounded"] = True
+    o["bound"] = "the 12 inputs of replay/C16.py::check_multi_recipients"
+    if o["status"] == "proved":
+        o["status"] = "bounded-ok"
+    verified = pmr_shape_ok(repo)
+    o2 = ground_obligation(f"C16/msg_email_extractor.py::{PMR}/coverage#verified-when-written-with-loops-else-summarised", True,
+                           "verified under its contract in this run" if verified else
+                           "body written with comprehensions: NOT verified on this tree (summarised at call sites, native table only)", MSG,
+                           kind="bounded", backend="dataflow")
+    o2["bounded"] = True
+    o2["status"] = "bounded-ok"
+    return {"obligations": [o, o2], "functions": []}
 
 
 def pmr_contract():
@@ -1576,7 +1639,11 @@ def contracts(reg):
     M.install(reg)
     out = []
     out.append(psr_contract())
-    out.append(pmr_contract())
+    try:
+        if pmr_shape_ok():
+            out.append(pmr_contract())
+    except Exception:  # noqa  (never let an exception escape from contracts())
+        pass
     out.append(ros_contract())
     try:
         hint_pattern()
@@ -1770,7 +1837,8 @@ def _guarded_extra(fn, oid):
 EXTRA = [_guarded_extra(pattern_obligations, "C16/mbox_email_extractor.py::MBOX_FROM_PATTERN/module-invariant#pattern-is-a-compiled-bytes-literal"),
          _guarded_extra(frame_obligations, "C16/data_types.py::FileMetadataInterface.populate_from_path/frame#assigns-only-file-metadata-fields"),
          _guarded_extra(mime_table_obligations, "C16/mime_types.py::MIME_TYPE_MAPPING/module-invariant#keys-are-type/subtype-names"),
-         _guarded_extra(hint_pattern_obligations, "C16/msg_email_extractor.py::_HTML_HINT_RE/module-invariant#opening-tags-with-or-without-attributes-are-html")]
+         _guarded_extra(hint_pattern_obligations, "C16/msg_email_extractor.py::_HTML_HINT_RE/module-invariant#opening-tags-with-or-without-attributes-are-html"),
+         _guarded_extra(pmr_coverage_obligations, "C16/msg_email_extractor.py::_parse_multi_recipients/bounded#native-table")]
 REPLAY_UNKNOWN = True      # an obligation the solver leaves unknown is searched natively (replay/C16.py) before it is reported undecided
 
 
@@ -1860,5 +1928,7 @@ NOT_CLAIMED = [
     "(e.g. report.pdf sent as application/octet-stream): `supported` is read as the is_supported_mime_type flag of the data model",
     "date strings of .eml (UTC, +00:00) and .mbox (original offset) denote the same instant but are not the same string",
 ]
-BOUNDED = ["a regular expression used with re.sub is taken to implement RFC 5322 unfolding when it does so on the table c16_exec.UNFOLD_TABLE "
+BOUNDED = ["_parse_multi_recipients written with comprehensions / generator expressions instead of loops is not verified (summarised as before round 7): "
+           "the native table bounded#native-table is then the only check of its body",
+           "a regular expression used with re.sub is taken to implement RFC 5322 unfolding when it does so on the table c16_exec.UNFOLD_TABLE "
            "(evaluated with the real `re`); otherwise it stays an uninterpreted substitution"]
